@@ -110,6 +110,7 @@ type Exec struct {
 	vecPos  int
 	deadline time.Time
 	started  time.Time
+	rng      uint64
 }
 
 type pathEnd struct{ reason string }
@@ -315,7 +316,11 @@ func (ex *Exec) recordViolation(st *State, label string, neg *Term, detail strin
 		return
 	}
 	want := ex.drawTerms(st)
-	r, vals := ex.check(st, neg, want)
+	base := append([]*Term(nil), st.pc...)
+	if neg != nil {
+		base = append(base, neg)
+	}
+	r, vals := ex.solver.Check(base, want)
 	if r == Unknown {
 		ex.res.Inconclusive = append(ex.res.Inconclusive, fmt.Sprintf("%s at %s: model query unknown (%s)", label, site, ex.solver.LastError))
 		return
@@ -324,6 +329,54 @@ func (ex *Exec) recordViolation(st *State, label string, neg *Term, detail strin
 		return
 	}
 	ex.vioSeen[key] = true
+	// Generic model: octets the counterexample does not depend on get arbitrary non-trivial values instead
+	// of the solver's default (usually zero), so that a native replay does not pass by coincidence (e.g. an
+	// all-zero key that HMAC's own zero padding makes equivalent to its truncation).
+	if len(want) > 0 {
+		kept := base
+		budget := 48
+		var try func(ts []*Term)
+		try = func(ts []*Term) {
+			if budget <= 0 || len(ts) == 0 {
+				return
+			}
+			var eqs []*Term
+			for _, t := range ts {
+				if t.IsConst() || t.sort.K != KBV || t.sort.W != 8 {
+					continue
+				}
+				ex.rng = ex.rng*6364136223846793005 + 1442695040888963407
+				eqs = append(eqs, mkEq(t, mkBV(8, 1+(ex.rng>>33)%254)))
+			}
+			if len(eqs) == 0 {
+				return
+			}
+			budget--
+			c := mkAnd(eqs...)
+			rr, _ := ex.solver.Check(append(append([]*Term(nil), kept...), c), nil)
+			if rr == Sat {
+				kept = append(kept, c)
+				return
+			}
+			if len(ts) > 1 {
+				try(ts[:len(ts)/2])
+				try(ts[len(ts)/2:])
+			}
+		}
+		for _, d := range st.draws {
+			switch d.Kind {
+			case "bytes", "rand":
+				try(d.ts)
+			case "input":
+				try(d.ts[1:])
+			}
+		}
+		if len(kept) > len(base) {
+			if r2, v2 := ex.solver.Check(kept, want); r2 == Sat && v2 != nil {
+				vals = v2
+			}
+		}
+	}
 	v := &Violation{Label: label, Site: site, Func: fn, Detail: detail, Notes: append([]string(nil), st.notes...), PCSize: len(st.pc)}
 	if vals != nil || len(want) == 0 {
 		v.Model = ex.modelOf(st, vals)
